@@ -304,6 +304,14 @@ func (a *Agent) ListKeys() (*serf.KeyResponse, error) {
 // SetTags is used to update the tags. The agent will make sure to
 // persist tags if necessary before gossiping to the cluster.
 func (a *Agent) SetTags(tags map[string]string) error {
+	// Set the tags in Serf first, start gossiping out. Serf validates the
+	// tags (their encoding must fit the member meta data limit); persisting
+	// them before that check would leave a tags file that differs from the
+	// tags in effect, and that the agent cannot even start from.
+	if err := a.serf.SetTags(tags); err != nil {
+		return err
+	}
+
 	// Update the tags file if we have one
 	if a.agentConf.TagsFile != "" {
 		if err := a.writeTagsFile(tags); err != nil {
@@ -311,9 +319,7 @@ func (a *Agent) SetTags(tags map[string]string) error {
 			return err
 		}
 	}
-
-	// Set the tags in Serf, start gossiping out
-	return a.serf.SetTags(tags)
+	return nil
 }
 
 // loadTagsFile will load agent tags out of a file and set them in the
